@@ -142,6 +142,15 @@ def write_bounded(pid, r1):
     return path
 
 
+def _open_findings(pid):
+    pth = os.path.join(VERIF, "known_findings.json")
+    try:
+        with open(pth) as f:
+            return [x for x in json.load(f).get("findings", []) if x.get("property") == pid and x.get("status") == "open"]
+    except Exception:       # noqa
+        return []
+
+
 def run_oracle(pid, script, doubtful):
     """native property-level oracle (small concrete systems through the public API) as replay of last resort"""
     d = os.path.join(VERIF, "replays", pid)
@@ -159,7 +168,10 @@ def run_oracle(pid, script, doubtful):
     try:
         p = subprocess.run([PY, "-W", "ignore", path], capture_output=True, text=True, timeout=900, env=native_env(), cwd=d)
         out = (p.stdout or "") + (p.stderr or "")
-        reproduced = p.returncode == 1 and "VIOLATED" in out
+        # failing inputs that are listed as open known findings do not count as a reproduction of anything else
+        pats = [f.get("oracle_match") for f in _open_findings(pid) if f.get("oracle_match")]
+        vio = [ln for ln in out.splitlines() if ln.startswith("VIOLATED") and not any(pt in ln for pt in pats)]
+        reproduced = p.returncode == 1 and bool(vio)
     except subprocess.TimeoutExpired:
         out, reproduced = "oracle timed out", False
     with open(path, "a") as f:
